@@ -105,6 +105,21 @@ def run_impl(steps, limit=5.0):
                 break
         elif kind == 'state':
             obs.append(impl_state(w))
+        elif kind == 'run':
+            # Wal.run: evaluate as on a freshly started interpreter with the same traces at index 0
+            import contextlib as _c
+            import io as _io
+            buf = _io.StringIO()
+            try:
+                with impl.time_limit(limit), _c.redirect_stdout(buf):
+                    v = w.run(impl.parse(st[1]))
+                obs.append(('ok', wire.canon(v), buf.getvalue()))
+            except impl.CaseTimeout:
+                obs.append(('timeout',))
+                break
+            except BaseException as e:  # noqa: BLE001
+                obs.append(('err', type(e).__name__))
+                break
         else:
             raise ValueError(kind)
     return obs
@@ -134,6 +149,9 @@ def model_lines(steps):
             lines.append(f'eval {st[1] or "-"} {FUEL} ' + wire.enc(ast))
         elif kind == 'state':
             lines.append('state')
+        elif kind == 'run':
+            lines.append('#ignore runreset')
+            lines.append(f'eval eor {FUEL} ' + wire.enc(impl.parse(st[1])))
         else:
             raise ValueError(kind)
     return lines
@@ -152,8 +170,8 @@ def parse_reply(step, reply):
         if toks[0] == 'unsup':
             return ('unsup', unhx(toks[1]) if len(toks) > 1 else '')
         return ('bad', reply)
-    if kind in ('eval', 'evalast'):
-        post = step[3] if len(step) > 3 else None
+    if kind in ('eval', 'evalast', 'run'):
+        post = step[3] if len(step) > 3 and kind != 'run' else None
         if toks[0] == 'ok':
             sep = toks.index(';')
             v, _ = wire.dec(toks[1:sep])
@@ -211,10 +229,11 @@ def run_model_cases(cases_steps):
         ls = model_lines(steps)
         spans.append((len(lines), len(ls)))
         lines.extend(ls)
-    replies = Model().run(lines)
+    replies = Model().run([ln[8:] if ln.startswith('#ignore ') else ln for ln in lines])
     res = []
     for steps, (off, n) in zip(cases_steps, spans):
-        rs = replies[off + 1: off + n]      # skip the reply to `reset`
+        # skip the reply to `reset` and to auxiliary lines
+        rs = [replies[off + k] for k in range(1, n) if not lines[off + k].startswith('#ignore ')]
         res.append([parse_reply(s, r) for s, r in zip(steps, rs)])
     return res
 
@@ -236,7 +255,7 @@ def compare(steps, iobs, mobs):
             if mo[0] != 'err':
                 return ('diff', k, io, mo)
             n += 1
-            if steps[k][0] in ('eval', 'evalast'):
+            if steps[k][0] in ('eval', 'evalast', 'run'):
                 return ('agree', n)      # state after a failed evaluation is unspecified
             continue
         if io[0] == 'exit':
